@@ -314,6 +314,9 @@ def run_walk(ctx, n=None, variant="plain", scripts=None, with_reader=True, parts
     impl = vlib.run_c(variant, "prog", progs, args=[scratch, "timeout=60"], timeout=3000)
     vw = walk_files(ctx, files, "dump" if with_reader else "report")
     vl = check_logs(ctx, logs)
+    # what the abstract specification (extracted Spec.v) says the same reader calls return: the decoder's rebuilt content must agree
+    # with it too (a writer change that decoder and library reader interpret alike is caught here)
+    spec_out = vlib.run_model("prog", [s + reader_ops(s)[0] for (s, _m) in cases], timeout=3000) if with_reader else [""] * len(cases)
     dist = {}
     nv = 0
     for i, ((script, meta), a, w, l) in enumerate(zip(cases, impl, vw, vl)):
@@ -351,6 +354,12 @@ def run_walk(ctx, n=None, variant="plain", scripts=None, with_reader=True, parts
                 if diffs:
                     nv += ctx.violation("walk_reader_%d.txt" % i, replay + "\nreader: %s\n\n%s\n" % (rd_part[:3000], "\n".join(diffs)),
                                         "independent decoder and library reader disagree: %s" % diffs[0][:200], sig=None)
+                sp_part = spec_out[i].partition(";ropen")[2]
+                if sp_part and "FAULT" not in spec_out[i]:
+                    diffs = compare_with_reader(w, "ropen" + sp_part, idsl[i])
+                    if diffs:
+                        nv += ctx.violation("walk_spec_%d.txt" % i, replay + "\nspecification: %s\n\n%s\n" % (sp_part[:3000], "\n".join(diffs).replace("reader", "specification")),
+                                            "independent decoder and the abstract specification disagree: %s" % diffs[0][:200].replace("reader", "specification"), sig=None)
         if "log" in parts and not l.startswith("OK"):
             sig = None
             # strict checker: the only known class is the SOURCE_DEF header rewrite that zeroes payload_prev_length,
